@@ -13,10 +13,18 @@
   ATOMIC STEPS (labels) = the critical sections of the code + the receiver's await points:
       send x, trySend x, whenFlushed w, whenEmpty w, dropSender              (sender side, each one lock section)
       rxTake          lock; swap out the pending batch or take its watchers; unlock          (lib.rs:363-394)
-      rxBegin         the lock-free code up to the first await: notify_on_take, resets, re-allocation of the next
-                      buffer, the call of on_batch — or notify_on_flush, return / idle wait  (lib.rs:397-412, 457-469)
+      rxFireTake      ONE `when_empty` callback of the taken batch runs (notify_on_take, lib.rs:397, 742-746)
+      rxFireFlush     ONE flush callback runs: of an empty hand-off (lib.rs:460) or after the last attempt of a
+                      batch (lib.rs:455). A callback is arbitrary code — it may itself perform sender operations —
+                      so every invocation is its own control point: sender labels can be interleaved between two
+                      callbacks, between the last callback and the call of on_batch, and between the last callback
+                      of an empty hand-off and the exit check.
+      rxBegin         once the callbacks have run: resets, re-allocation of the next buffer, the call of on_batch
+                      (lib.rs:399-412) — or, for an empty hand-off, the exit check on the `is_open` value read
+                      under the lock by rxTake, return / idle wait                            (lib.rs:464-469)
       rxOutcome o     the on_batch call / its future concludes with `o` (the processor is adversarial: any
-                      outcome, any remainder) and the code runs to the next await or the loop head (lib.rs:412-455)
+                      outcome, any remainder): counters, retry decision and wait request, or the batch is
+                      finalised and its flush callbacks are due                               (lib.rs:412-455)
       rxRetryWaited   the retry back-off wait completes, on_batch is called with the remainder (lib.rs:427-435)
       rxIdleWaited    the idle wait completes                                                (lib.rs:469)
       dropReceiver    the receiver (future) is torn down at an await point                   (lib.rs:330-338)
@@ -76,6 +84,8 @@ inductive Label where
   | whenFlushed (w : Nat)
   | whenEmpty (w : Nat)
   | rxTake
+  | rxFireTake
+  | rxFireFlush
   | rxBegin
   | rxOutcome (o : Outcome)
   | rxRetryWaited
@@ -88,9 +98,10 @@ inductive Label where
     (ghost: the items whose final attempt has not concluded), `cur`/`rem` the argument of the current / next call. -/
 inductive Rx where
   | idle
-  | taken (batch takeW flushW : List Nat) (wasOpen : Bool)
+  | taken (batch takeW flushW : List Nat) (wasOpen : Bool)   -- takeW / flushW: callbacks still to run / to carry
   | processing (orig cur ws : List Nat)
   | retryWait (orig rem ws : List Nat)
+  | notifying (ws : List Nat)                               -- batch finalised; its flush callbacks still to run
   | idleWait
   | done
   deriving Repr, DecidableEq
@@ -107,6 +118,7 @@ def Rx.ws : Rx → List Nat
   | .taken _ _ fw _ => fw
   | .processing _ _ ws => ws
   | .retryWait _ _ ws => ws
+  | .notifying ws => ws
   | _ => []
 
 /-- `when_empty` watchers the receiver holds (between the unlock and `notify_on_take`). -/
@@ -233,27 +245,51 @@ def rxTake (s : St) : Option St :=
                     pendTakeW := [], pendFlushW := [] }
   | _ => none
 
-/-- After the unlock up to the first await (lib.rs:397-412 and 457-469). -/
+/-- One `when_empty` callback of the taken batch runs (`notify_on_take`, lib.rs:397). -/
+def rxFireTake (s : St) : Option St :=
+  match s.rx with
+  | .taken b (w :: tw) fw wasOpen =>
+    some { s with firedTake := s.firedTake ++ [w], rx := .taken b tw fw wasOpen }
+  | _ => none
+
+/-- Loop head, or flush callbacks of a finalised batch still to run. -/
+def afterNotify : List Nat → Rx
+  | [] => .idle
+  | ws => .notifying ws
+
+/-- One flush callback runs: of an empty hand-off, after its `when_empty` callbacks (lib.rs:460), or of a batch
+    whose last attempt has concluded (lib.rs:455). -/
+def rxFireFlush (s : St) : Option St :=
+  match s.rx with
+  | .taken [] [] (w :: fw) wasOpen =>
+    some { s with fired := s.fired ++ [w], rx := .taken [] [] fw wasOpen }
+  | .notifying (w :: ws) =>
+    some { s with fired := s.fired ++ [w], rx := afterNotify ws }
+  | _ => none
+
+/-- After the callbacks up to the first await (lib.rs:399-412 and 464-469). -/
 def rxBegin (cfg : Cfg) (s : St) : Option St :=
   match s.rx with
-  | .taken b tw fw wasOpen =>
-    let s := { s with firedTake := s.firedTake ++ tw }                           -- notify_on_take
+  | .taken b [] fw wasOpen =>
     if b.length > 0 then
       some { s with retryCur := 0, retryDelay := 0, idleDelay := 0,              -- resets (399-402)
                     rx := .processing b b fw,                                    -- on_batch(batch) (412)
                     calls := s.calls ++ [b], firstAttempts := s.firstAttempts ++ [b],
                     callsPerBatch := s.callsPerBatch ++ [1], batchWaits := [] }
     else
-      let s := { s with fired := s.fired ++ fw }                                 -- notify_on_flush (460)
-      if !wasOpen then some { s with rx := .done, isOpen := false }              -- return; Receiver dropped (464-466)
-      else
-        let d := delayNext s.idleDelay cfg.idleStep cfg.idleCap                  -- wait(idle_delay.next()) (469)
-        some { s with idleDelay := d, waits := s.waits ++ [d], rx := .idleWait }
+      match fw with
+      | [] =>
+        -- the exit check uses the `is_open` value read under the lock by rxTake (lib.rs:376/384, 464)
+        if !wasOpen then some { s with rx := .done, isOpen := false }            -- return; Receiver dropped (464-466)
+        else
+          let d := delayNext s.idleDelay cfg.idleStep cfg.idleCap                -- wait(idle_delay.next()) (469)
+          some { s with idleDelay := d, waits := s.waits ++ [d], rx := .idleWait }
+      | _ => none
   | _ => none
 
-/-- The last attempt of the batch has concluded: `notify_on_flush` (lib.rs:455), back to the loop head. -/
+/-- The last attempt of the batch has concluded: its items are final, its flush callbacks are due (lib.rs:455). -/
 def conclude (s : St) (orig ws : List Nat) : St :=
-  { s with fired := s.fired ++ ws, finalised := s.finalised ++ orig, rx := .idle }
+  { s with finalised := s.finalised ++ orig, rx := afterNotify ws }
 
 /-- The on_batch call concludes with outcome `o` (lib.rs:412-451). -/
 def rxOutcome (cfg : Cfg) (s : St) (o : Outcome) : Option St :=
@@ -305,6 +341,7 @@ def dropSender (s : St) : St := { s with isOpen := false, senderAlive := false }
 def dropReceiver (s : St) : Option St :=
   match s.rx with
   | .taken _ _ _ _ => none
+  | .notifying _ => none
   | .done => none
   | r => some { s with isOpen := false, rx := .done, tornDown := true, pendingAtTeardown := s.pending,
                         dropped := s.dropped ++ r.ws }
@@ -316,6 +353,8 @@ def step (cfg : Cfg) (s : St) : Label → Option St
   | .whenFlushed w => if s.senderAlive then some (whenFlushed s w) else none
   | .whenEmpty w => if s.senderAlive then some (whenEmpty s w) else none
   | .rxTake => rxTake s
+  | .rxFireTake => rxFireTake s
+  | .rxFireFlush => rxFireFlush s
   | .rxBegin => rxBegin cfg s
   | .rxOutcome o => rxOutcome cfg s o
   | .rxRetryWaited => rxRetryWaited s
@@ -326,7 +365,9 @@ def step (cfg : Cfg) (s : St) : Label → Option St
 /-- Every state reachable under SOME interleaving of sender operations, receiver steps and outcomes. -/
 def Reachable (cfg : Cfg) (s : St) : Prop := Sched.Reachable (step cfg) init s
 
-/-- Labels that are steps of the receiver (or of the processor / timer it awaits). -/
+/-- Labels that are steps of the receiver's loop (or of the processor / timer it awaits). The individual callback
+    invocations `rxFireTake` / `rxFireFlush` are NOT counted: the bounded-liveness theorems bound the number of
+    loop steps, however many callbacks are registered. -/
 def Label.isRx : Label → Bool
   | .rxTake | .rxBegin | .rxOutcome _ | .rxRetryWaited | .rxIdleWaited => true
   | _ => false
@@ -488,6 +529,7 @@ def pathPanics : BlockingPath → Ctx → Bool
 /-- Receiver the blocking call runs against (stream `batcher_blocking`). -/
 inductive RxKind where
   | live | stalled | gone
+  | late     -- stalled when the call starts, started 30 ms later: the call has to wait, then the queue is drained
   | hangup   -- the receiver takes the batch with the watcher, never finishes it and is torn down
   deriving Repr, DecidableEq
 
@@ -504,6 +546,7 @@ def blockingFlush (cfg : Cfg) (rx : RxKind) (prefill timeout : Nat) : Option Boo
   let flag0 := decide (0 ∈ s.fired)
   let wakes : List CvWake := match rx with
     | .live => [{ flag := true, timedOut := false, elapsed := 0 }]
+    | .late => [{ flag := true, timedOut := false, elapsed := 30 }]
     | _ => [{ flag := false, timedOut := true, elapsed := timeout }]
   waitTimeout timeout flag0 wakes
 
@@ -515,6 +558,7 @@ def asyncFlush (cfg : Cfg) (rx : RxKind) (prefill timeout : Nat) : Bool :=
   let atTry : Oneshot := if 0 ∈ s.fired then .sent else .empty
   let later : TimedRecv := match rx with
     | .live => .received
+    | .late => .received
     | .hangup => .hungUp
     | _ => .elapsed
   oneshotWait timeout atTry later
@@ -526,6 +570,7 @@ def blockingSend (cfg : Cfg) (rx : RxKind) (prefill timeout : Nat) (x : Nat) : O
   let first := (trySend cfg s x).2
   let obs : List (Nat × TryRes) := match rx with
     | .live => [(0, .ok)]
+    | .late => [(0, .ok)]
     | _ => [(0, first), (timeout, first)]
   sendOrWait timeout first obs
 
